@@ -16,6 +16,7 @@ PREDS = {
     'phase': (('p',), '0 <= p <= 3'),
     'herm': (('p',), 'p == 0 or p == 2'),
     'phases1': (('ps',), 'forall(k, 0, len(ps), 0 <= ps[k] <= 3)'),
+    'herms1': (('ps',), 'forall(k, 0, len(ps), ps[k] == 0 or ps[k] == 2)'),
 }
 
 # ------------------------------------------------------------------ C01: acq / ipow / p0
@@ -242,7 +243,8 @@ CONTRACTS[U + 'stabilizer_expect'] = dict(
     params=[('gs_stb', 'int2'), ('ps_stb', 'int1'), ('gs_obs', 'int2'), ('ps_obs', 'int1'), ('r', 'int')],
     requires=['cols(gs_obs) % 2 == 0', 'rows(gs_stb) == cols(gs_obs)', 'cols(gs_stb) == cols(gs_obs)',
               'len(ps_stb) == rows(gs_stb)', 'len(ps_obs) == rows(gs_obs)', '0 <= r <= cols(gs_obs) // 2',
-              'bits2(gs_stb)', 'bits2(gs_obs)'],
+              'bits2(gs_stb)', 'bits2(gs_obs)',
+              'herms1(ps_obs)'],      # observables are Hermitian (the integer kernel cannot return +-i)
     ensures=['len(result) == rows(gs_obs)',
              'forall(k, 0, rows(gs_obs), expect_val(result[k], gs_stb, ps_stb, gs_obs[k], ps_obs[k], r, cols(gs_obs) // 2))'],
     modifies=[], returns='int1 fresh',
